@@ -1,6 +1,6 @@
 (* C10 property theorems: statements only, each closed by [exact]. *)
 From Coq Require Import NArith ZArith List Bool.
-From LV Require Import Lib.Bytes Model.C10 Proofs.C10 Proofs.C10Client Proofs.C10Frag Proofs.C10Time Proofs.C10Honest Proofs.C10Old.
+From LV Require Import Lib.Bytes Model.C10 Proofs.C10 Proofs.C10Client Proofs.C10Frag Proofs.C10Time Proofs.C10Honest Proofs.C10Old Proofs.C10Srv.
 Import ListNotations.
 Local Open Scope Z_scope.
 
@@ -40,6 +40,48 @@ Theorem C10_server_fragmentation_irrelevant :
        handle_request store q).
 Proof. exact srv_fragmentation. Qed.
 Print Assumptions C10_server_fragmentation_irrelevant.
+
+(* SERVER TIMERS (close_on_idle / wait_for(sendfile, transfer_timeout)); tsrv_step mirrors: started_transfer is set
+   BEFORE the sendfile await, so the watchdog stops counting idle time while a blob is being sent.
+   From the moment a transfer starts, for EVERY sequence of clock advances that sums to less than transfer_timeout,
+   the connection is still open and still in that transfer: the idle timer never cuts an in-progress transfer. *)
+Theorem C10_server_transfer_not_cut_by_idle :
+  forall (idleT transT : Z) (s : tsrv) (d : Z) (dts : list Z),
+    t_mode s = TmIdle d -> total dts < transT ->
+    tsrv_run idleT transT (tsrv_step idleT transT s TvStart) (map TvAdvance dts)
+      = mkT (t_now s + total dts) (TmTransfer (t_now s + transT)).
+Proof. exact transfer_not_cut_by_idle. Qed.
+Print Assumptions C10_server_transfer_not_cut_by_idle.
+
+(* a transfer that completes in time re-arms a FRESH idle period *)
+Theorem C10_server_transfer_done_rearms :
+  forall (idleT transT : Z) (s : tsrv) (d : Z) (dts : list Z),
+    t_mode s = TmIdle d -> total dts < transT ->
+    tsrv_step idleT transT (tsrv_run idleT transT (tsrv_step idleT transT s TvStart) (map TvAdvance dts)) TvDone
+      = mkT (t_now s + total dts) (TmIdle (t_now s + total dts + idleT)).
+Proof. exact transfer_done_rearms. Qed.
+Print Assumptions C10_server_transfer_done_rearms.
+
+(* a silent peer, or one whose requests start no transfer, is closed once idle_timeout has elapsed *)
+Theorem C10_server_silent_peer_closed :
+  forall (idleT transT : Z) (evs : list tev) (s : tsrv) (d : Z),
+    Forall quiet evs -> t_mode s = TmIdle d -> live s -> d <= t_now s + elapsed_t evs ->
+    t_mode (tsrv_run idleT transT s evs) = TmClosed.
+Proof. exact silent_peer_closed. Qed.
+Print Assumptions C10_server_silent_peer_closed.
+
+(* a transfer that never finishes is closed once transfer_timeout has elapsed *)
+Theorem C10_server_stalled_transfer_closed :
+  forall (idleT transT : Z) (evs : list tev) (s : tsrv) (d : Z),
+    Forall unfinished evs -> t_mode s = TmTransfer d -> live s -> d <= t_now s + elapsed_t evs ->
+    t_mode (tsrv_run idleT transT s evs) = TmClosed.
+Proof. exact stalled_transfer_closed. Qed.
+Print Assumptions C10_server_stalled_transfer_closed.
+
+Example C10_ex_slow_reader_served :
+  tsrv_trace 30 60 (tsrv_fresh 30 0) [TvAdvance 29; TvStart; TvAdvance 35; TvDone; TvAdvance 29; TvAdvance 1]
+  = [true; true; true; true; true; false].
+Proof. vm_compute. reflexivity. Qed.
 
 (* ------------------------------------------------------------------ CLIENT *)
 
